@@ -14,6 +14,7 @@ import xonsh.lib.lazyimps as xli
 import xonsh.platform as xp
 import xonsh.tools as xt
 from xonsh.built_ins import XSH
+from xonsh.lib import verifhooks as _vh
 from xonsh.procs.jobs import proc_untraced_waitpid
 from xonsh.procs.readers import (
     BufferedFDParallelReader,
@@ -216,6 +217,7 @@ class PopenThread(threading.Thread):
         # orig_stdout & orig_stderr are need by posix and Windows.
         # Also, order seems to matter here,
         # with orig_* needed to be closed before cap*
+        _vh.point("copier.procexit")
         safe_fdclose(self.orig_stdout)
         safe_fdclose(self.orig_stderr)
         # Close pipe channel write ends (the wrappers above have closefd=False,
@@ -232,6 +234,7 @@ class PopenThread(threading.Thread):
             self._read_write(procout, stdout, sys.__stdout__)
             self._read_write(procerr, stderr, sys.__stderr__)
         # kill the process if it is still alive. Happens when piping.
+        _vh.point("copier.drained")
         if proc.poll() is None:
             proc.terminate()
             try:
@@ -311,8 +314,10 @@ class PopenThread(threading.Thread):
         else:
             with self.lock:
                 p = membuf.tell()
+                _vh.point("copier.tell", pos=p, n=len(chunk))
                 membuf.seek(0, io.SEEK_END)
                 membuf.write(chunk)
+                _vh.point("copier.wrote", pos=p, n=len(chunk))
                 membuf.seek(p)
 
     #
